@@ -299,7 +299,7 @@ def random_schedule(run, pid, jobs, rng):
         w.close()
 
 
-def run(pid):
+def run(pid, extra=None):
     r = core.Run(pid, "model_checking")
     thorough = r.tier == "thorough"
     rng = random.Random(core.seed())
@@ -357,8 +357,12 @@ def run(pid):
                 for sig, desc in problems:
                     if relevant(pid, sig):
                         r.violation("%s:%s" % (sig, fault_of(jobs)), "%s, random schedule: %s" % (cfg, desc), {"cfg": cfg, "jobs": jobs, "schedule_tail": tail})
+        if pid == "C12":
+            handshake_thread_failure(r)
     finally:
         roots.close()
+    if extra is not None:
+        extra(r)
     r.notes["schedules_replayed_exactly"] = exact_n
     r.notes["schedules_with_drift"] = drift_n
     if pid == "C12" and False:
@@ -367,6 +371,126 @@ def run(pid):
         "exactly one managed thread runs at a time; threads can be preempted only at Lock / Queue operations (all inter-thread communication of this code goes through them)",
         "the Noise server double mirrors WhatsApp's symmetric-state variant and decrypts strictly in counter order"]
     return r.finish()
+
+
+def handshake_thread_failure(r):
+    """A failure on the way up on the HANDSHAKE thread: the server's first stanzas travel in the same chunk as its handshake reply (a login with
+    the cached server key), so the noise layer queues them and the handshake thread hands them upward as soon as the transport is established.
+    The application callback raises for the first one.  That error belongs to the stanza: the login succeeded, the connection stays up, the
+    frame behind it and later frames are delivered, sends work, no lock stays held - with real threads, for each position of the raising frame."""
+    import threading, time
+    from yowsup.layers import YowLayer
+    from yowsup.structs import ProtocolTreeNode
+    from yowsup.layers.coder.encoder import WriteEncoder
+    from yowsup.layers.coder.decoder import ReadDecoder
+    from yowsup.layers.coder.tokendictionary import TokenDictionary
+    from yowsup.layers.noise.layer import YowNoiseLayer
+
+    def enc(node):
+        return bytes(bytearray(WriteEncoder(TokenDictionary()).protocolTreeNodeToBytes(node)))
+    for pos in (0, 1):
+        r.case(("handshake-thread-failure", pos))
+        r.cov["traces_validated_against_impl"] += 1
+        World.N += 1
+        events = []
+
+        class Top(YowLayer):
+            def __init__(top):
+                YowLayer.__init__(top)
+                top.up = []
+
+            def receive(top, node):
+                if node["boom"]:
+                    raise _Boom("application callback raising")
+                top.up.append(node)
+
+            def onEvent(top, ev):
+                events.append(ev.getName())
+                return False
+        srv1 = NoiseServer()
+        rig = transportkit.TransportRig(e2ekit.make_profile("49157709%05d" % World.N), srv1, top_cls=Top, reply_inline=True)
+        errors = []
+        old_hook = threading.excepthook
+        threading.excepthook = lambda a: errors.append(a.exc_type.__name__)
+        try:
+            if rig.login() != "transport":
+                raise core.MachineryError("first login of the rig failed")
+            d1 = rig.dispatchers[-1]
+            d1.open = False
+            rig.net.onDisconnected()
+            frames = [ProtocolTreeNode("notification", {"id": "n%d" % i, "from": "s.whatsapp.net", "type": "x"}) for i in range(2)]
+            frames[pos]["boom"] = "1"
+
+            class Behind(object):
+                """The same server (same static key); its first stanzas ride on the chunk of its handshake reply."""
+                def __init__(b):
+                    b.srv = NoiseServer(static=srv1.static)
+                    b.done = False
+
+                def feed(b, data):
+                    out = b.srv.feed(data)
+                    if out and b.srv.state == "transport" and not b.done:
+                        b.done = True
+                        out[-1] = out[-1] + b"".join(b.srv.send(enc(f)) for f in frames)
+                    return out
+
+                def __getattr__(b, n):
+                    return getattr(b.srv, n)
+            rig.server = Behind()
+            state = rig.login()
+            w = rig.noise._handshake_worker
+            if w is not None:
+                w.join(5)
+            problems = []
+            if rig.server.variant != "IK" or not rig.server.done:
+                raise core.MachineryError("second login of the rig was not an IK handshake with stanzas behind the hello (%s)" % rig.server.variant)
+            if state != "transport":
+                problems.append(("up:login-state", "after the login the noise protocol is in state %r" % state))
+            if YowNoiseLayer.EVENT_HANDSHAKE_FAILED in events or any(getattr(n, "tag", None) == "failure" for n in rig.top.up):
+                problems.append(("up:spurious-login-failure", "the application's error for a stanza was reported as a login failure (events %s, top %s)" % (
+                    [e.rsplit(".", 1)[-1] for e in events], [n.tag for n in rig.top.up])))
+            last_connect = max(i for i, x in enumerate(rig.log) if x[0] == "connect")
+            if any(x[0] == "disconnect" for x in rig.log[last_connect:]):
+                problems.append(("up:disconnected", "the connection was closed because an application callback raised"))
+            # a later frame: everything behind the failing stanza is delivered, in order
+            later = ProtocolTreeNode("notification", {"id": "later", "from": "s.whatsapp.net", "type": "x"})
+            try:
+                rig.net.onRecvData(rig.server.send(enc(later)))
+            except _Boom:
+                pass
+            except Exception as e:
+                problems.append(("up:later-frame-raises", "a later frame raised %r" % (e,)))
+            want = [f["id"] for f in frames if not f["boom"]] + ["later"]
+            got = [n["id"] for n in rig.top.up if getattr(n, "tag", None) == "notification"]
+            if got != want:
+                problems.append(("up:frames-lost", "frames delivered after the failing one: %s, expected %s" % (got, want)))
+            held = [getattr(l.lock, "name", i) for i, l in ((i, rig.stack.getLayer(i)) for i in range(1, 5)) if l.lock.locked()]
+            if held or rig.noise._flush_lock.locked():
+                problems.append(("lock-leak", "locks still held: %s flush=%s" % (held, rig.noise._flush_lock.locked())))
+            else:
+                done = []
+                t = threading.Thread(target=lambda: (rig.top.toLower(ProtocolTreeNode("iq", {"id": "after", "type": "get", "xmlns": "w:p"})), done.append(1)))
+                t.daemon = True
+                t.start()
+                t.join(5)
+                if not done:
+                    problems.append(("wedged", "a send after the failure does not return"))
+                else:
+                    try:
+                        got_srv = [ReadDecoder(TokenDictionary()).getProtocolTreeNode(bytearray(x)) for x in rig.server.received]
+                    except Exception as e:
+                        got_srv = []
+                    if not any(n is not None and n["id"] == "after" for n in got_srv):
+                        problems.append(("down:send-lost", "a send after the failure did not reach the server"))
+            for sig, desc in problems:
+                r.violation("%s:handshake-thread" % sig, "stanzas behind the server hello, application raises for stanza %d: %s (thread errors %s)" % (pos, desc, errors),
+                            {"scenario": "handshake-thread-failure", "pos": pos})
+        finally:
+            threading.excepthook = old_hook
+            try:
+                rig.net.onDisconnected()
+            except Exception:
+                pass
 
 
 def fault_of(jobs):
